@@ -103,8 +103,14 @@ def translate(path):
     if not widths:
         fail("width dispatch not found")
     # executors
-    execs = re.findall(r"ExecutorKind::(\w+) => Some\(Box::new\((\w+)::<C>::create\(code, opt\)\?\)\)", src)
+    execs = re.findall(r"ExecutorKind::(\w+) => (?:Some\()?Box::new\((\w+)::<C>::create\(code, opt\)\?\)\)?", src)
+    # every arm that builds an executor / a bytecode listing must have been recognised: a partial table would
+    # be "proved different" although only the translator failed to read the source
+    if len(execs) != len(re.findall(r"Box::new\(\s*\w+::<C>::create\(", src)):
+        fail("executor arms not recognised")
     pbc = re.findall(r"ExecutorKind::(\w+) => \{\s*let program = ir::Program::<C>::parse\(code\)\?;\s*let program = program\.optimize\(opt\);\s*let bytecode = bc::CodeGen::translate\(&program, (\d+), (true|false)\);", src)
+    if len(pbc) != len(re.findall(r"bc::CodeGen::translate\(", src)):
+        fail("bytecode print arms not recognised")
     # mode selection
     mm = re.search(r"if let Some\(limit\) = limit \{\s*cxt\.budget = limit;\s*exec\.execute_limited\(&mut cxt\)\?;\s*\} else if safe \{\s*exec\.execute\(&mut cxt\)\?;\s*\} else \{.*?cxt\.memory\.make_accessible\((-?[\d_]+), ([\d_]+)\);\s*unsafe \{ exec\.execute_unsafe\(&mut cxt\)\? \};", src, re.S)
     if not mm:
